@@ -5,6 +5,8 @@ import (
 	"time"
 
 	"github.com/benoitkugler/gomacro/analysis"
+	"github.com/benoitkugler/gomacro/analysis/httpapi"
+	"github.com/benoitkugler/gomacro/generator/typescript"
 	"verif.test/mc/fam"
 	"verif.test/mc/prog"
 )
@@ -46,6 +48,29 @@ func evalC18(e *Eval) {
 			e.Count("refused:" + t)
 		}
 	}
+	if e.Prog.Family == "F-routes" {
+		// the seventh target of the CLI: typescript/api = ParseEcho + GenerateAxios
+		var eps []httpapi.Endpoint
+		if pi := prog.Guard(func() { eps = httpapi.ParseEcho(e.L.Root, e.L.RootFiles[0], e.Prog.Notes["prefix"]) }); pi != nil {
+			if pi.Runtime {
+				outcome += "!"
+				e.Fail("no-runtime-error", "ParseEcho: "+pi.Where, "ParseEcho died with a Go runtime error instead of a diagnostic: "+pi.String())
+			} else {
+				outcome += "d"
+				e.Count("refused:typescript/api")
+			}
+		} else if pi := prog.Guard(func() { typescript.GenerateAxios(eps) }); pi != nil {
+			if pi.Runtime {
+				outcome += "!"
+				e.Fail("no-runtime-error", "GenerateAxios: "+pi.Where, "GenerateAxios died with a Go runtime error instead of a diagnostic: "+pi.String())
+			} else {
+				outcome += "d"
+				e.Count("refused:typescript/api")
+			}
+		} else {
+			outcome += "."
+		}
+	}
 	e.Res.Outcome = outcome
 	e.Res.Nontrivial = true
 	if e.Cost == 1 && len(e.Prog.Features) > 0 {
@@ -59,12 +84,14 @@ func init() {
 		Bound:       map[string]int{"quick": 2, "thorough": 3},
 		Deadline:    map[string]time.Duration{"quick": 5 * time.Minute, "thorough": 45 * time.Minute},
 		FatalClause: "no-fatal-crash",
-		Rule:        "every program of families F-types, F-enum, F-union within the deviation bound x analysis + 7 targets (gounions, randdata, sqlcrud with and without sets, sql, typescript, dart); distinct = distinct source text; every program is non-trivial (8 stages each)",
+		Rule:        "every program of families F-types, F-enum, F-union, F-tables, F-routes within the deviation bound x analysis + 7 targets (gounions, randdata, sqlcrud with and without sets, sql, typescript, dart; plus ParseEcho + GenerateAxios for route files); distinct = distinct source text; every program is non-trivial (8 stages each)",
 		Assumptions: []string{"a panic whose value is not a runtime.Error is an explicit gomacro diagnostic", "worker process death (stack overflow) counts as a crash"},
 		Eval:        evalC18,
 		More: []*ProgCheck{
 			{Family: "F-enum", Synth: fam.Enum, Bound: map[string]int{"quick": 2, "thorough": 3}},
 			{Family: "F-union", Synth: fam.Union, Bound: map[string]int{"quick": 2, "thorough": 3}},
+			{Family: "F-tables", Synth: fam.Tables, Bound: map[string]int{"quick": 2, "thorough": 3}},
+			{Family: "F-routes", Synth: fam.Routes, Bound: map[string]int{"quick": 2, "thorough": 3}},
 		},
 	})
 }
